@@ -136,36 +136,50 @@ def unpack(chk):
     rets = [n for n in walk_no_nested(fn) if isinstance(n, ast.Return)]
     if len(rets) == 1 and isinstance(rets[0].value, ast.Name):
         wname = rets[0].value.id
+    alt = _header_counter_form(fn, lp, H, iv, data, outs)
+    if alt is not None:
+        ok_alt, why_alt, hname = alt
+        chk.check(not hstores, 'C15-R2', P9, '_unpack_pack9', 'header records yield no particle', 'header branch stores no output',
+                  f'header branch stores outputs {[unparse(x) for x in hstores]}', node=H)
+        chk.check(ok_alt, 'C15-R2', P9, '_unpack_pack9', 'particle stores are indexed by the write counter',
+                  f'row = record index - headers seen ({iv} - {hname})', why_alt, node=H)
+        chk.check(ok_alt, 'C15-R2', P9, '_unpack_pack9', 'write counter incremented exactly once per particle record, after the stores, unconditionally',
+                  f'{hname} += 1 exactly once per header record; particles = records - headers', why_alt, node=H)
+        chk.check(ok_alt, 'C15-R2', P9, '_unpack_pack9', 'counter starts at 0 and is the return value', f'returns len({data}) - {hname}', why_alt, node=fn)
+        wname = '__none__'
     hw = [n for s in H.body for n in walk_no_nested(s) if isinstance(n, ast.Name) and isinstance(n.ctx, ast.Store) and n.id == wname]
-    chk.check(not hstores and not hw, 'C15-R2', P9, '_unpack_pack9', 'header records yield no particle',
-              'header branch stores no output and leaves the write counter alone',
-              f'header branch stores outputs {[unparse(x) for x in hstores]} / counter writes {len(hw)}', node=H)
-    # particle branch
     pstores = [n for s in H.orelse for n in walk_no_nested(s) if isinstance(n, ast.Assign) and isinstance(n.targets[0], ast.Subscript)
                and isinstance(n.targets[0].value, ast.Name) and n.targets[0].value.id in outs]
-    okw = bool(pstores) and wname is not None
-    badidx = []
-    for n in pstores:
-        sl = n.targets[0].slice
-        first = sl.elts[0] if isinstance(sl, ast.Tuple) else sl
-        if not (isinstance(first, ast.Name) and first.id == wname):
-            badidx.append(unparse(n.targets[0]))
-    chk.check(okw and not badidx, 'C15-R2', P9, '_unpack_pack9', 'particle stores are indexed by the write counter',
-              f'{len(pstores)} stores at [{wname}, a]', f'stores not at the write counter: {badidx}', node=H)
-    incs = [s for s in H.orelse if isinstance(s, ast.AugAssign) and isinstance(s.target, ast.Name) and s.target.id == wname
-            and isinstance(s.op, ast.Add) and isinstance(s.value, ast.Constant) and s.value.value == 1]
-    allw = [n for n in walk_no_nested(lp) if isinstance(n, ast.Name) and isinstance(n.ctx, ast.Store) and n.id == wname]
-    after = False
-    if incs:
-        pos_inc = H.orelse.index(incs[0])
-        after = all(any(p is x for st in H.orelse[:pos_inc] for x in ast.walk(st)) for p in pstores)
-    chk.check(len(incs) == 1 and len(allw) == 1 and after, 'C15-R2', P9, '_unpack_pack9',
-              'write counter incremented exactly once per particle record, after the stores, unconditionally',
-              '', f'increments in particle branch: {len(incs)}, writes to counter in loop: {len(allw)}, after stores: {after}', node=H)
-    init = [s for s in fn.body if isinstance(s, ast.Assign) and isinstance(s.targets[0], ast.Name) and s.targets[0].id == wname]
-    ok0 = len(init) == 1 and fn.body.index(init[0]) < fn.body.index(lp) and unparse(init[0].value) in ('np.int64(0)', '0')
-    chk.check(ok0 and wname is not None, 'C15-R2', P9, '_unpack_pack9', 'counter starts at 0 and is the return value',
-              '', f'init={[unparse(i) for i in init]} return={[unparse(r) for r in rets]}', node=fn)
+    if alt is None:
+      chk.check(not hstores and not hw, 'C15-R2', P9, '_unpack_pack9', 'header records yield no particle',
+                'header branch stores no output and leaves the write counter alone',
+                f'header branch stores outputs {[unparse(x) for x in hstores]} / counter writes {len(hw)}', node=H)
+      # particle branch
+      pstores = [n for s in H.orelse for n in walk_no_nested(s) if isinstance(n, ast.Assign) and isinstance(n.targets[0], ast.Subscript)
+                 and isinstance(n.targets[0].value, ast.Name) and n.targets[0].value.id in outs]
+      okw = bool(pstores) and wname is not None
+      badidx = []
+      for n in pstores:
+          sl = n.targets[0].slice
+          first = sl.elts[0] if isinstance(sl, ast.Tuple) else sl
+          if not (isinstance(first, ast.Name) and first.id == wname):
+              badidx.append(unparse(n.targets[0]))
+      chk.check(okw and not badidx, 'C15-R2', P9, '_unpack_pack9', 'particle stores are indexed by the write counter',
+                f'{len(pstores)} stores at [{wname}, a]', f'stores not at the write counter: {badidx}', node=H)
+      incs = [s for s in H.orelse if isinstance(s, ast.AugAssign) and isinstance(s.target, ast.Name) and s.target.id == wname
+              and isinstance(s.op, ast.Add) and isinstance(s.value, ast.Constant) and s.value.value == 1]
+      allw = [n for n in walk_no_nested(lp) if isinstance(n, ast.Name) and isinstance(n.ctx, ast.Store) and n.id == wname]
+      after = False
+      if incs:
+          pos_inc = H.orelse.index(incs[0])
+          after = all(any(p is x for st in H.orelse[:pos_inc] for x in ast.walk(st)) for p in pstores)
+      chk.check(len(incs) == 1 and len(allw) == 1 and after, 'C15-R2', P9, '_unpack_pack9',
+                'write counter incremented exactly once per particle record, after the stores, unconditionally',
+                '', f'increments in particle branch: {len(incs)}, writes to counter in loop: {len(allw)}, after stores: {after}', node=H)
+      init = [s for s in fn.body if isinstance(s, ast.Assign) and isinstance(s.targets[0], ast.Name) and s.targets[0].id == wname]
+      ok0 = len(init) == 1 and fn.body.index(init[0]) < fn.body.index(lp) and unparse(init[0].value) in ('np.int64(0)', '0')
+      chk.check(ok0 and wname is not None, 'C15-R2', P9, '_unpack_pack9', 'counter starts at 0 and is the return value',
+                '', f'init={[unparse(i) for i in init]} return={[unparse(r) for r in rets]}', node=fn)
     # loop covers every record once
     chk.check(unparse(lp.iter) in (f'range(len({data}))', 'range(N)') and _is_len(fn, 'N', data) or unparse(lp.iter) == f'range(len({data}))',
               'C15-R2', P9, '_unpack_pack9', 'one loop iteration per record, in stream order', unparse(lp.iter),
@@ -349,3 +363,46 @@ def wrapper(chk):
         detail = f'count variable {npart}; truncations {len(sl)}'
     chk.check(ok, 'C15-R2', P9, 'unpack_pack9', 'allocated outputs truncated to the decoded particle count; kernel argument order', detail,
               f'wrapper does not truncate both outputs to the decoded count or passes arguments in another order ({detail})', node=fn)
+
+
+def _header_counter_form(fn, lp, H, iv, data, outs):
+    """Alternative bookkeeping: count the header records (h += 1 in the header branch) and store particle i at row i - h;
+    the number of particles returned is len(data) - h.  Returns (ok, why, h) when the function returns `N - h`, else None."""
+    rets = [n for n in walk_no_nested(fn) if isinstance(n, ast.Return)]
+    if len(rets) != 1 or not (isinstance(rets[0].value, ast.BinOp) and isinstance(rets[0].value.op, ast.Sub) and isinstance(rets[0].value.right, ast.Name)):
+        return None
+    h = rets[0].value.right.id
+    total = rets[0].value.left
+    why = []
+    if not (unparse(total) == f'len({data})' or (isinstance(total, ast.Name) and _is_len(fn, total.id, data))):
+        why.append(f'returns {unparse(rets[0].value)}, not len({data}) - {h}')
+    init = [s_ for s_ in fn.body if isinstance(s_, ast.Assign) and isinstance(s_.targets[0], ast.Name) and s_.targets[0].id == h]
+    if not (len(init) == 1 and fn.body.index(init[0]) < fn.body.index(lp) and unparse(init[0].value) in ('np.int64(0)', '0')):
+        why.append(f'{h} does not start at 0')
+    incs = [s_ for s_ in H.body if isinstance(s_, ast.AugAssign) and isinstance(s_.target, ast.Name) and s_.target.id == h
+            and isinstance(s_.op, ast.Add) and isinstance(s_.value, ast.Constant) and s_.value.value == 1]
+    allw = [n for n in walk_no_nested(lp) if isinstance(n, ast.Name) and isinstance(n.ctx, ast.Store) and n.id == h]
+    if not (len(incs) == 1 and len(allw) == 1):
+        why.append(f'{h} is advanced {len(allw)} time(s) in the loop, {len(incs)} of them unconditionally in the header branch')
+    # particle stores at i - h (directly or through one local bound at the top of the particle branch)
+    local = {}
+    for s_ in H.orelse:
+        if isinstance(s_, ast.Assign) and isinstance(s_.targets[0], ast.Name):
+            local[s_.targets[0].id] = unparse(s_.value).replace(' ', '')
+    pst = [n for s_ in H.orelse for n in walk_no_nested(s_) if isinstance(n, ast.Assign) and isinstance(n.targets[0], ast.Subscript)
+           and isinstance(n.targets[0].value, ast.Name) and n.targets[0].value.id in outs]
+    bad = []
+    for n in pst:
+        sl = n.targets[0].slice
+        first = sl.elts[0] if isinstance(sl, ast.Tuple) else sl
+        t = unparse(first).replace(' ', '')
+        t = local.get(t, t)
+        if t != f'{iv}-{h}':
+            bad.append(unparse(n.targets[0]))
+    if not pst or bad:
+        why.append(f'particle stores not at row {iv} - {h}: {bad[:3]}')
+    wloc = [k for k, v in local.items() if v == f'{iv}-{h}']
+    for k in wloc:
+        if sum(1 for n in walk_no_nested(lp) if isinstance(n, ast.Name) and n.id == k and isinstance(n.ctx, ast.Store)) != 1:
+            why.append(f'{k} is rebound in the loop')
+    return (not why, '; '.join(why), h)
